@@ -4,6 +4,7 @@ import (
 	"bytes"
 	"context"
 	"fmt"
+	"os"
 	"sort"
 	"strings"
 	"sync"
@@ -290,6 +291,11 @@ type Runner struct {
 	ckptN int
 	// OptHook may adjust the options before every Open.
 	OptHook func(*pebble.Options)
+	// fsHook, if set, is called (on the goroutine performing the operation)
+	// before the DB creates a directory or file or links a file. Only set and
+	// cleared by the foreground while no background work can race with it being
+	// read in a harmful way (a stale read just skips or repeats a no-op).
+	fsHook func(kind, path string)
 
 	// counters for evidence / non-triviality
 	C map[string]int
@@ -476,8 +482,37 @@ func (r *Runner) candidatesFrom(lo int) (vs []*State) {
 // walOn reports whether commits are logged.
 func (r *Runner) walOn() bool { return !r.Plan.Opt.DisableWAL }
 
+// hookFS lets a step run harness code at a file-system operation of the DB
+// (used to perform commits *during* a Checkpoint, see stepCheckpoint). The hook
+// is consulted for directory/file creations and links only.
+type hookFS struct {
+	vfs.FS
+	r *Runner
+}
+
+func (h *hookFS) call(kind, path string) {
+	if f := h.r.fsHook; f != nil {
+		f(kind, path)
+	}
+}
+
+func (h *hookFS) MkdirAll(dir string, perm os.FileMode) error {
+	h.call("mkdir", dir)
+	return h.FS.MkdirAll(dir, perm)
+}
+
+func (h *hookFS) Create(name string, c vfs.DiskWriteCategory) (vfs.File, error) {
+	h.call("create", name)
+	return h.FS.Create(name, c)
+}
+
+func (h *hookFS) Link(oldname, newname string) error {
+	h.call("link", newname)
+	return h.FS.Link(oldname, newname)
+}
+
 func (r *Runner) Open() error {
-	r.Opts = BuildOptions(r.Plan.Opt, r.FS, r.Ev.Listener(), r.Log)
+	r.Opts = BuildOptions(r.Plan.Opt, &hookFS{FS: r.FS, r: r}, r.Ev.Listener(), r.Log)
 	if r.OptHook != nil {
 		r.OptHook(r.Opts)
 	}
